@@ -57,7 +57,12 @@ def safe_urlsplit(url, scheme="http"):
     if not re.match(PROTOCOL_RE, url):
         url = scheme + "://" + url
 
-    splitted = urlsplit(url)
+    # NOTE: a string the standard parser rejects (e.g. unbalanced brackets in
+    # the host) has no component we can rely upon
+    try:
+        splitted = urlsplit(url)
+    except ValueError:
+        return SplitResult("", "", "", "", "")
 
     return splitted
 
